@@ -9,13 +9,16 @@ package main
 //     on the same bytes) and `c01 kcode relu|mul` (the bytes the real loader extracts = the Lean literals the
 //     program proofs are about).  Oracles: the host references (`in > 0 ? in : 0`, `in1 * in2`, bit-exact) on the
 //     elements the launch covers, and the frame (every other element of the output buffer unchanged).
-//   * `stale`: where the zero of the hidden global offset of `copyKernel` comes from.  The driver writes 24 of the
-//     80 kernel-argument bytes; the kernel reads kernarg+24.  The rest is whatever the physical page holds.  With
-//     the default device memory state a freed page goes to the END of the free-page queue, so a kernel-argument
-//     page is a never-used (zero) page until the device has handed out all of its pages once.  The scenario makes
-//     the queue wrap (512 MiB pages: 8 pages per GPU) and shows that the copy then silently does nothing.
-//   * `xcheck`: GPUOperator.ElementWiseMul / ScaleAdd with verification enabled compare the GPU result with the
-//     CPU operator applied to (a, a) instead of (a, b).
+//   * `stale`: where the zero of the hidden global offset of `copyKernel` comes from.  Before the repair of finding
+//     C01-hidden-kernarg-stale-page the driver wrote 24 of the 80 kernel-argument bytes; the kernel reads
+//     kernarg+24, which was whatever the physical page held.  With the default device memory state a freed page
+//     goes to the END of the free-page queue, so a kernel-argument page is a never-used (zero) page until the
+//     device has handed out all of its pages once.  The scenario makes the queue wrap (512 MiB pages: 8 pages per
+//     GPU) so that the kernel-argument page holds 0x40 at offset 24: the old driver then silently copied nothing;
+//     the repaired driver writes the hidden words itself (regression oracle C01.deep.hidden-offset-stale).
+//   * `xcheck`: GPUOperator.ElementWiseMul with verification enabled: before the repair of finding
+//     C01-dnn-crosscheck-compares-a-with-a the GPU result was compared with the CPU operator applied to (a, a)
+//     instead of (a, b) (regression oracle C01.dnn.crosscheck.elementwisemul).
 //   * `pageq`: the free-page queue of a device (pop at the head, freed pages appended) against the Lean model.
 
 import (
@@ -218,7 +221,9 @@ func c01KernChild(args []string) {
 		for i := 0; i+3 < len(fl); i++ {
 			drv.AllocateMemory(ctx, 64)
 		}
-		regions = []c01Region{{uint64(dIn), in}, {uint64(dOut), out0}}
+		// (the destination buffer is appended below: since the repair of C01-hidden-kernarg-stale-page the copy
+		// really happens, so it must not be among the buffers that have to stay unmodified)
+		regions = []c01Region{{uint64(dIn), in}}
 		res.Inputs = 1
 		drv.EnqueueMemCopyD2D(queue, dOut, dIn, spec.Num)
 		res.Name = "copyKernel-stale-kernarg"
@@ -489,7 +494,7 @@ func runC01Kern(r *Run, rng *Rng, replay string) {
 			r.Checked("stale-copy")
 			if string(res.Out[:spec.Num]) != string(in[:spec.Num]) {
 				unchanged := string(res.Out) == string(out0)
-				r.Failf("C01.deep.hidden-offset-stale", id, "MemCopyD2D of %d bytes after the free-page queue wrapped (free list %d pages, 512 MiB pages): the kernel-argument page is a reused page, hidden global offset at kernarg+24 = %d, destination unchanged=%v", spec.Num, res.FreeLen, goff, unchanged)
+				r.Failf("C01.deep.hidden-offset-stale", id, "MemCopyD2D of %d bytes after the free-page queue wrapped (free list %d pages, 512 MiB pages): the kernel-argument page is a reused page, hidden global offset at kernarg+24 = %d, destination unchanged=%v (regression of the repaired finding C01-hidden-kernarg-stale-page: EnqueueMemCopyD2D has to write the hidden words)", spec.Num, res.FreeLen, goff, unchanged)
 			}
 		case "xcheck":
 			r.Checked("xcheck-gpu-result")
@@ -498,7 +503,7 @@ func runC01Kern(r *Run, rng *Rng, replay string) {
 			}
 			r.Checked("xcheck-verification")
 			if res.Panicked != "" {
-				r.Failf("C01.dnn.crosscheck.elementwisemul", id, "GPU result equals a*b bit for bit, but ElementWiseMul with EnableVerification panics: %s (the CPU reference is computed from (a, a))", res.Panicked)
+				r.Failf("C01.dnn.crosscheck.elementwisemul", id, "GPU result equals a*b bit for bit, but ElementWiseMul with EnableVerification panics: %s (regression of the repaired finding C01-dnn-crosscheck-compares-a-with-a: the CPU reference has to be computed from (a, b), not (a, a))", res.Panicked)
 			}
 		}
 	}
